@@ -124,6 +124,20 @@ struct WState {
 pub struct SessData {
     pub contents: Vec<Vec<u8>>,
     pub toi2o: HashMap<u128, usize>,
+    /// added to the object index reported for this stream (distinguishes the objects of a second
+    /// session that shares endpoint and TSI with the judged one)
+    pub o_offset: usize,
+}
+
+fn lookup(st: &WState, ep: u64, tsi: u64, toi: &u128) -> (usize, Option<Vec<u8>>) {
+    for (e, t, sd) in st.sess.borrow().iter() {
+        if *e == ep && *t == tsi {
+            if let Some(o) = sd.toi2o.get(toi) {
+                return (*o + sd.o_offset, Some(sd.contents[*o - 1].clone()));
+            }
+        }
+    }
+    (0, None)
 }
 
 fn ep_id(ep: &UDPEndpoint) -> u64 {
@@ -189,14 +203,7 @@ impl ObjectWriterBuilder for SBuilder {
         let w = self.st.next_w.get();
         self.st.next_w.set(w + 1);
         let ep = ep_id(endpoint);
-        let sd = self.st.sess.borrow().iter().find(|(e, t, _)| *e == ep && *t == *tsi).map(|x| x.2.clone());
-        let (o, content) = match &sd {
-            Some(sd) => {
-                let o = sd.toi2o.get(toi).copied().unwrap_or(0);
-                (o, if o > 0 { Some(sd.contents[o - 1].clone()) } else { None })
-            }
-            None => (0, None),
-        };
+        let (o, content) = lookup(&self.st, ep, *tsi, toi);
         let ans = self.st.answers.get(w - 1).cloned().unwrap_or("store".to_string());
         self.st.log.borrow_mut().push(json!({"k":"new","w":w,"o":o,"ans":ans,"ep":ep,"tsi":*tsi as i64,
             "toix":format!("{:x}", toi),"meta":meta_json(meta, self.st.base_s),"ts":rel_s(now, self.st.base_s)}));
@@ -215,8 +222,7 @@ impl ObjectWriterBuilder for SBuilder {
 
     fn update_cache_control(&self, endpoint: &UDPEndpoint, tsi: &u64, toi: &u128, meta: &ObjectMetadata, _now: SystemTime) {
         let ep = ep_id(endpoint);
-        let sd = self.st.sess.borrow().iter().find(|(e, t, _)| *e == ep && *t == *tsi).map(|x| x.2.clone());
-        let o = sd.map(|sd| sd.toi2o.get(toi).copied().unwrap_or(0)).unwrap_or(0);
+        let (o, _) = lookup(&self.st, ep, *tsi, toi);
         self.st.log.borrow_mut().push(json!({"k":"cc","o":o,"ep":ep,"tsi":*tsi as i64,"meta":meta_json(meta, self.st.base_s)}));
     }
 
@@ -326,8 +332,7 @@ fn snapshot(rx: &MultiReceiver, st: &WState) -> Value {
     let mut sess = Vec::new();
     for (key, s) in &snaps {
         let ep = ep_id(&key.endpoint);
-        let sd = st.sess.borrow().iter().find(|(e, t, _)| *e == ep && *t == key.tsi).map(|x| x.2.clone());
-        let map = |t: &u128| sd.as_ref().and_then(|sd| sd.toi2o.get(t).copied()).unwrap_or(0);
+        let map = |t: &u128| lookup(st, ep, key.tsi, t).0;
         sess.push(json!({"ep": ep, "tsi": key.tsi as i64,
             "objs": s.objects.iter().map(|o| json!({"o": map(&o.toi), "toix": format!("{:x}", o.toi), "st": o.state, "cp": o.cache_pkts, "cb": o.cache_bytes,
                 "cc": o.cache_counter, "nb": o.nb_blocks, "bo": o.blocks_offset, "nab": o.nb_allocated_blocks, "ab": o.allocated_bytes,
@@ -412,9 +417,10 @@ pub fn run_rx_behaviour(beh: &Value, sessions: &Vec<Session>, out: &mut Out, lim
         base_s,
         sess: RefCell::new(Vec::new()),
     });
-    for (sid, ep) in &streams {
+    for (n, (sid, ep)) in streams.iter().enumerate() {
         let s = &sessions[*sid];
-        st.sess.borrow_mut().push((*ep, s.tsi, Rc::new(SessData { contents: s.contents.clone(), toi2o: s.toi2o.clone() })));
+        let shares = streams[..n].iter().any(|(s2, e2)| *e2 == *ep && sessions[*s2].tsi == s.tsi);
+        st.sess.borrow_mut().push((*ep, s.tsi, Rc::new(SessData { contents: s.contents.clone(), toi2o: s.toi2o.clone(), o_offset: if shares { 100 * n } else { 0 } })));
     }
     let max_cache = jopt_i(&rcfg, "max_cache", -1);
     let obj_to = jopt_i(&rcfg, "obj_to", -1);
@@ -503,7 +509,10 @@ pub fn run_rx_behaviour(beh: &Value, sessions: &Vec<Session>, out: &mut Out, lim
             "delay" => delay_us = a[1].as_i64().unwrap() * 1_000_000,
             "skew" => skew_us = a[1].as_i64().unwrap() * 1_000_000,
             "now" => fixed_now = if a[1].as_i64().unwrap() < 0 { None } else { Some(a[1].as_i64().unwrap()) },
-            "sleep" => std::thread::sleep(Duration::from_millis(a[1].as_u64().unwrap())),
+            "sleep" => {
+                std::thread::sleep(Duration::from_millis(a[1].as_u64().unwrap()));
+                out.emit(&json!({"ev":"sleep","ms":a[1]}));
+            }
             "p" | "pm" | "seq" => {
                 let (from, to) = match name {
                     "seq" => (a[1].as_u64().unwrap() as usize, a[2].as_u64().unwrap() as usize),
@@ -526,6 +535,175 @@ pub fn run_rx_behaviour(beh: &Value, sessions: &Vec<Session>, out: &mut Out, lim
                         dead = true;
                         break;
                     }
+                }
+            }
+            "garbage" | "fuzzhdr" | "mutseq" | "xmlfdt" => {
+                if let Some(r) = rx.as_mut() {
+                    let endpoint = make_ep(ep);
+                    let mut cases: Vec<Vec<u8>> = Vec::new();
+                    match name {
+                        "garbage" => {
+                            // every byte string of length <= a[1]; for the next length a seeded sample of a[2] strings
+                            let maxlen = a[1].as_u64().unwrap() as usize;
+                            cases.push(vec![]);
+                            for len in 1..=maxlen {
+                                let n = 256usize.pow(len as u32);
+                                for v in 0..n {
+                                    cases.push((0..len).map(|k| ((v >> (8 * (len - 1 - k))) & 0xFF) as u8).collect());
+                                }
+                            }
+                            let nsample = a[2].as_u64().unwrap();
+                            let mut x = a.get(3).and_then(|v| v.as_u64()).unwrap_or(1).wrapping_mul(0x9E3779B97F4A7C15) | 1;
+                            for _ in 0..nsample {
+                                x ^= x << 13; x ^= x >> 7; x ^= x << 17;
+                                let len = maxlen + 1 + ((x >> 60) as usize % 2) * ((x >> 50) as usize % 40);
+                                let mut v = Vec::with_capacity(len);
+                                let mut y = x;
+                                for _ in 0..len { y ^= y << 13; y ^= y >> 7; y ^= y << 17; v.push((y >> 32) as u8); }
+                                // half of the samples start like a plausible LCT header
+                                if x & 1 == 0 && v.len() >= 4 { v[0] = 0x10; v[2] = (v[2] % 12) as u8; }
+                                cases.push(v);
+                            }
+                        }
+                        "fuzzhdr" => {
+                            // every single-byte substitution in the header region of packet a[1]
+                            let i = a[1].as_u64().unwrap() as usize;
+                            if i >= 1 && i <= s.pkts.len() {
+                                let (_, bytes, p) = &s.pkts[i - 1];
+                                let hdr = bytes.len() - p["len"].as_u64().unwrap_or(0) as usize;
+                                for off in 0..hdr {
+                                    for val in 0..=255u8 {
+                                        if bytes[off] != val {
+                                            let mut v = bytes.clone();
+                                            v[off] = val;
+                                            cases.push(v);
+                                        }
+                                    }
+                                }
+                            }
+                        }
+                        "mutseq" => {
+                            // seeded random mutation sequence over the packets of the current stream
+                            let seed = a[1].as_u64().unwrap();
+                            let n = a[2].as_u64().unwrap();
+                            let mut x = seed.wrapping_mul(0xD1B54A32D192ED03) | 1;
+                            let mut rnd = || { x ^= x << 13; x ^= x >> 7; x ^= x << 17; x };
+                            for _ in 0..n {
+                                if s.pkts.is_empty() { break; }
+                                let (_, bytes, p) = &s.pkts[(rnd() % s.pkts.len() as u64) as usize];
+                                let hdr = bytes.len() - p["len"].as_u64().unwrap_or(0) as usize;
+                                let mut v = bytes.clone();
+                                let nmut = 1 + rnd() % 3;
+                                for _ in 0..nmut {
+                                    match rnd() % 8 {
+                                        0 => { let o = (rnd() % v.len().max(1) as u64) as usize; if o < v.len() { v[o] ^= 1 << (rnd() % 8); } }
+                                        1 => { let o = (rnd() % hdr.max(1) as u64) as usize; if o < v.len() { v[o] = rnd() as u8; } }
+                                        2 => { let k = (rnd() % 8) as usize; let l = v.len().saturating_sub(k); v.truncate(l); }
+                                        3 => { let k = rnd() % 16; for _ in 0..k { v.push(rnd() as u8); } }
+                                        4 => { if v.len() > 2 { v[2] = rnd() as u8; } }                       // HDR_LEN
+                                        5 => { if v.len() > 1 { v[1] ^= 0xF0 & (rnd() as u8); } }              // S O H flags
+                                        6 => { // splice with another packet
+                                            let (_, other, _) = &s.pkts[(rnd() % s.pkts.len() as u64) as usize];
+                                            let cut = (rnd() % v.len().max(1) as u64) as usize;
+                                            v.truncate(cut);
+                                            let c2 = (rnd() % other.len().max(1) as u64) as usize;
+                                            v.extend_from_slice(&other[c2..]);
+                                        }
+                                        _ => { // large values in the words after the LCT header (EXT_FTI fields, payload ids)
+                                            if hdr > 8 { let o = 4 + (rnd() % (hdr as u64 - 4)) as usize; if o < v.len() { v[o] = [0u8, 0xFF, 0x80, 0x7F][(rnd() % 4) as usize]; } }
+                                        }
+                                    }
+                                }
+                                cases.push(v);
+                            }
+                        }
+                        _ => {
+                            // crafted FDT instances (attribute classes) announcing TOI 1 of the current stream, each
+                            // followed by the stream's object packets
+                            let exp = "4200000000";
+                            let file = |attrs: &str| format!("<File Content-Location=\"file:///x\" TOI=\"1\" {}/>", attrs);
+                            let inst = |attrs: &str, body: &str| format!("<?xml version=\"1.0\" encoding=\"UTF-8\"?><FDT-Instance xmlns=\"urn:IETF:metadata:2005:FLUTE:FDT\" Expires=\"{}\" {}>{}</FDT-Instance>", exp, attrs, body);
+                            let base_oti = "FEC-OTI-FEC-Encoding-ID=\"0\" FEC-OTI-Maximum-Source-Block-Length=\"2\" FEC-OTI-Encoding-Symbol-Length=\"4\"";
+                            let mut xmls: Vec<String> = vec![
+                                inst(base_oti, &file("Content-Length=\"8\" Transfer-Length=\"8\"")),
+                                inst("", &file("Content-Length=\"8\"")),
+                                inst(base_oti, &file("")),
+                                inst(base_oti, &file("Content-Length=\"0\" Transfer-Length=\"0\"")),
+                                inst(base_oti, &file("Content-Length=\"18446744073709551615\" Transfer-Length=\"18446744073709551615\"")),
+                                inst(base_oti, &file("Content-Length=\"abc\"")),
+                                inst(base_oti, &file("Content-Length=\"-1\"")),
+                                inst("FEC-OTI-FEC-Encoding-ID=\"5\" FEC-OTI-Maximum-Source-Block-Length=\"200\" FEC-OTI-Encoding-Symbol-Length=\"4\" FEC-OTI-Max-Number-of-Encoding-Symbols=\"10\"", &file("Transfer-Length=\"8\"")),
+                                inst("FEC-OTI-FEC-Encoding-ID=\"0\" FEC-OTI-Maximum-Source-Block-Length=\"0\" FEC-OTI-Encoding-Symbol-Length=\"4\"", &file("Transfer-Length=\"8\"")),
+                                inst("FEC-OTI-FEC-Encoding-ID=\"0\" FEC-OTI-Maximum-Source-Block-Length=\"2\" FEC-OTI-Encoding-Symbol-Length=\"0\"", &file("Transfer-Length=\"8\"")),
+                                inst("FEC-OTI-FEC-Encoding-ID=\"0\" FEC-OTI-Maximum-Source-Block-Length=\"4294967295\" FEC-OTI-Encoding-Symbol-Length=\"65535\"", &file("Transfer-Length=\"281474976710655\"")),
+                                inst("FEC-OTI-FEC-Encoding-ID=\"6\" FEC-OTI-Maximum-Source-Block-Length=\"2\" FEC-OTI-Encoding-Symbol-Length=\"4\" FEC-OTI-Scheme-Specific-Info=\"AAAAAA==\"", &file("Transfer-Length=\"8\"")),
+                                inst("FEC-OTI-FEC-Encoding-ID=\"6\" FEC-OTI-Maximum-Source-Block-Length=\"2\" FEC-OTI-Encoding-Symbol-Length=\"4\" FEC-OTI-Scheme-Specific-Info=\"!!!\"", &file("Transfer-Length=\"8\"")),
+                                inst("FEC-OTI-FEC-Encoding-ID=\"1\" FEC-OTI-Maximum-Source-Block-Length=\"2\" FEC-OTI-Encoding-Symbol-Length=\"4\"", &file("Transfer-Length=\"8\"")),
+                                inst("FEC-OTI-FEC-Encoding-ID=\"2\" FEC-OTI-Maximum-Source-Block-Length=\"2\" FEC-OTI-Encoding-Symbol-Length=\"4\" FEC-OTI-Scheme-Specific-Info=\"IAE=\"", &file("Transfer-Length=\"8\"")),
+                                inst("FEC-OTI-FEC-Encoding-ID=\"129\" FEC-OTI-Maximum-Source-Block-Length=\"65535\" FEC-OTI-Encoding-Symbol-Length=\"4\" FEC-OTI-Max-Number-of-Encoding-Symbols=\"3\"", &file("Transfer-Length=\"8\"")),
+                                inst("FEC-OTI-FEC-Encoding-ID=\"77\" FEC-OTI-Maximum-Source-Block-Length=\"2\" FEC-OTI-Encoding-Symbol-Length=\"4\"", &file("Transfer-Length=\"8\"")),
+                                inst(base_oti, &file("Transfer-Length=\"8\" Content-Encoding=\"gzip\"")),
+                                inst(base_oti, &file("Transfer-Length=\"8\" Content-Encoding=\"bogus\" Content-MD5=\"@@@\"")),
+                                inst(base_oti, &file("Transfer-Length=\"8\" FEC-OTI-FEC-Encoding-ID=\"5\" FEC-OTI-Maximum-Source-Block-Length=\"9\" FEC-OTI-Encoding-Symbol-Length=\"4\" FEC-OTI-Max-Number-of-Encoding-Symbols=\"1\"")),
+                                inst(base_oti, "<File TOI=\"1\"/>"),
+                                inst(base_oti, "<File Content-Location=\"file:///x\" TOI=\"x\"/>"),
+                                inst(base_oti, "<File Content-Location=\"file:///x\" TOI=\"340282366920938463463374607431768211455\" Transfer-Length=\"8\"/><File Content-Location=\"file:///y\" TOI=\"1\" Transfer-Length=\"8\"/>"),
+                                "<FDT-Instance Expires=\"1\"".to_string(),
+                                "<?xml version=\"1.0\"?><FDT-Instance Expires=\"x\"></FDT-Instance>".to_string(),
+                                "<?xml version=\"1.0\"?><Other/>".to_string(),
+                                "\u{0}\u{1}not xml at all".to_string(),
+                                format!("<?xml version=\"1.0\"?><FDT-Instance Expires=\"{}\">{}</FDT-Instance>", exp, "<File Content-Location=\"a\" TOI=\"1\"/>".repeat(2000)),
+                                inst(base_oti, &format!("<File Content-Location=\"{}\" TOI=\"1\" Transfer-Length=\"8\"/>", "A".repeat(60000))),
+                                inst(&format!("{} Complete=\"maybe\" mbms2008:FullFDT=\"7\"", base_oti), &file("Transfer-Length=\"8\"")),
+                            ];
+                            let which = a.get(1).and_then(|v| v.as_i64()).unwrap_or(-1);
+                            if which >= 0 && (which as usize) < xmls.len() {
+                                xmls = vec![xmls[which as usize].clone()];
+                            }
+                            let big = flute::core::Oti::new_no_code(65000, 8);
+                            for (k, xml) in xmls.iter().enumerate() {
+                                let f = flute::verif::PktFields { cci: 0, tsi: s.tsi, toi: 0, fdt_id: Some(700 + k as u32), sbn: 0, esi: 0,
+                                    source_block_length: 1, cenc: flute::core::lct::Cenc::Null, inband_cenc: false, close_object: false,
+                                    sender_current_time: false, transfer_length: xml.len() as u64, payload: xml.as_bytes().to_vec() };
+                                cases.push(flute::verif::build_alc_pkt(&big, &f, flute::sender::Profile::RFC6726, base_time()));
+                                for (_, bytes, p) in &s.pkts {
+                                    if p["k"] == "obj" {
+                                        cases.push(bytes.clone());
+                                    }
+                                }
+                            }
+                        }
+                    }
+                    let (mut nok, mut nerr, mut npanic) = (0u64, 0u64, 0u64);
+                    let (mut maxus, mut maxpeak) = (0u64, 0usize);
+                    let mut first_bad = json!({"k":"none"});
+                    let total = cases.len();
+                    for (ci, c) in cases.iter().enumerate() {
+                        CUR_LINE.store(opn * 1_000_000 + ci as i64, Ordering::Relaxed);
+                        crate::alloc::reset_peak();
+                        let live0 = crate::alloc::live();
+                        let t0 = std::time::Instant::now();
+                        let res = guarded(limit_ms, || catch(|| r.push(&endpoint, c, last_now)));
+                        maxus = maxus.max(t0.elapsed().as_micros() as u64);
+                        maxpeak = maxpeak.max(crate::alloc::peak().saturating_sub(live0));
+                        match res {
+                            Ok(Ok(())) => nok += 1,
+                            Ok(Err(_)) => nerr += 1,
+                            Err(m) => {
+                                npanic += 1;
+                                first_bad = json!({"k":"panic","case":ci,"hex":c.iter().take(200).map(|b| format!("{:02x}", b)).collect::<String>(),"len":c.len(),"m":m});
+                                dead = true;
+                                break;
+                            }
+                        }
+                    }
+                    let cb: Vec<Value> = st.log.borrow_mut().drain(..).collect();
+                    let mut ev = json!({"ev":"batch","kind":name,"arg":a.get(1).cloned().unwrap_or(json!(0)),"count":total,"ok":nok,"err":nerr,"panic":npanic,
+                        "maxus":maxus,"peak":maxpeak,"first_bad":first_bad,"ncb":cb.len(),"cb":cb,"ep":ep,"sid":sid});
+                    if !dead {
+                        ev["st"] = snapshot(r, &st);
+                    }
+                    out.emit(&ev);
                 }
             }
             "raw" => {
